@@ -599,6 +599,28 @@ impl PairEngine {
                         &funds,
                     )
                 });
+                // ---- C15 on a pool WITH A HISTORY (pending protocol fees, donations, either asset kind): a deposit
+                // into a constant-product pool is accepted iff it satisfies the documented ratio bound on the
+                // REPORTED reserves; judged when the deposit went through or was refused for slippage (other
+                // refusals — funds, zero shares — are not this property's business)
+                if w.cp && !whale && pre.sup > 0 {
+                    if let Some(pl) = pre.pool {
+                        let verdict = match &o {
+                            Outcome::Ok(_) => Some("ok"),
+                            Outcome::Err(e) if e.contains("Slippage tolerance exceeded") => Some("err"),
+                            // a panic here comes from the share arithmetic on extreme pools (the model predicts
+                            // it), not from the tolerance check, which the pure-call engine judges for panics
+                            _ => None,
+                        };
+                        match verdict {
+                            Some(st) => {
+                                let desc = format!("{op}: reported reserves ({},{}) pending {:?}", pl[0], pl[1], pre.pend);
+                                crate::engines::slippage::monitor_cp_tol(mon, "pair_hist_deposit", tol, [d0, d1], [pl[0], pl[1]], st, &|| desc.clone());
+                            }
+                            None => mon.stat("pair_hist_deposit_refused_for_another_reason"),
+                        }
+                    }
+                }
                 if let Outcome::Ok(_) = &o {
                     let post = w.observe();
                     let share = post.users[r][2].saturating_sub(pre.users[r][2]);
